@@ -53,6 +53,12 @@ def run(repo, rep, tier):
     _entry_restored(repo, rep)
     _iterable_expressions(repo, rep)
     _digits(repo, rep)
+    # 'unpacking into several': the name list "(a, b, c)" is cut at every
+    # comma by Token.split, which has to split like str.split (C11 owns the
+    # Token algebra)
+    from . import c11
+    L.borrow(repo, rep, "R08.2", "C11", c11._algebra,
+             ("str-signature:split",))
     L.state_rule(repo, rep)
 
 
